@@ -542,7 +542,9 @@ def rules(tier):
             # C09-da: _load_ngrams with errors='surrogateescape' - unprintable Markov guesses are counted against --limit
             ('C09.R11', _shared_rule('plumbing', 'decode_error_policy')),
             # create_guesses hands the limit on unchanged
-            ('C09.R12', _shared_rule('plumbing', 'generator_glue'))]
+            ('C09.R12', _shared_rule('plumbing', 'generator_glue')),
+            # mutation sweep: break -> continue at the limit test of CrackingSession.run
+            ('C09.R13', _shared_rule('plumbing', 'limit_exhausted_leaves'))]
 
 
 META = {
